@@ -104,29 +104,12 @@ theorem declBase_known (b : FBase) (h : FBaseOk b) : TyKnown (declBase b) := by
   simp only [TyKnown, declBase, declTy, hdt]
   rw [← e]; exact this
 
-/-- the declared (quoted) names are made of `name_regexp` characters — what `WFds` asks of a dataset that is to be
-    printed and parsed again.  True of every raw ASCII name without `/` (`quoteName_nameOk`; names starting with `dap4`:
-    when the 8 characters passed through are `name_regexp` characters). -/
-def FQuotedB (b : FBase) : Prop := NameOk (quoteName b.name)
+/-- every raw name is quoted into `name_regexp` -/
+theorem RawNameOk.quoted {n : Text} (h : RawNameOk n) : NameOk (quoteName n) :=
+  quoteName_nameOk_any n h.ne (fun c hc => ⟨h.noSlash c hc, h.ascii c hc⟩) h.dap4
 
-/-- every raw name that does not start with `dap4` is quoted into `name_regexp` -/
-theorem RawNameOk.quoted {n : Text} (h : RawNameOk n) (hd : n.take 4 ≠ ['d', 'a', 'p', '4']) : NameOk (quoteName n) :=
-  quoteName_nameOk n h.ne (fun c hc => ⟨h.noSlash c hc, h.ascii c hc⟩) hd
-
-mutual
-def FQuotedT : FTmpl → Prop
-  | .base b => FQuotedB b
-  | .cont _ _ name _ kids => NameOk (quoteName name) ∧ FQuotedL kids
-  | .grid _ _ _ name _ arr maps => NameOk (quoteName name) ∧ FQuotedB arr ∧ ∀ b ∈ maps, FQuotedB b
-def FQuotedL : List FTmpl → Prop
-  | [] => True
-  | t :: ts => FQuotedT t ∧ FQuotedL ts
-end
-
-def FQuotedDs (d : FDataset) : Prop := NameOk (quoteName d.name) ∧ FQuotedL d.kids
-
-theorem declBase_ok (b : FBase) (h : FBaseOk b) (hq : FQuotedB b) : BaseOk (declBase b) := by
-  refine ⟨hq, ?_, ?_⟩
+theorem declBase_ok (b : FBase) (h : FBaseOk b) : BaseOk (declBase b) := by
+  refine ⟨h.name.quoted, ?_, ?_⟩
   · intro d hd
     simp only [declBase, List.mem_filterMap] at hd
     obtain ⟨e, he, hed⟩ := hd
@@ -137,29 +120,26 @@ theorem declBase_ok (b : FBase) (h : FBaseOk b) (hq : FQuotedB b) : BaseOk (decl
     rw [← hen]; exact (h.dims e he).1
 
 mutual
-theorem declT_wf : (t : FTmpl) → FWFT t → FQuotedT t → WFT (declT t) ∧ PrintableT (declT t)
-  | .base b, h, hq => by
+theorem declT_wf : (t : FTmpl) → FWFT t → WFT (declT t) ∧ PrintableT (declT t)
+  | .base b, h => by
     simp only [FWFT] at h
-    simp only [FQuotedT] at hq
     simp only [declT, WFT, PrintableT]
-    exact ⟨declBase_ok b h hq, declBase_known b h⟩
-  | .cont isSeq kw name gs kids, h, hq => by
+    exact ⟨declBase_ok b h, declBase_known b h⟩
+  | .cont isSeq kw name gs kids, h => by
     simp only [FWFT] at h
-    simp only [FQuotedT] at hq
-    obtain ⟨_, _, _, hk, hnd⟩ := h
-    have ih := declL_wf kids hk hq.2
+    obtain ⟨_, hn, _, hk, hnd⟩ := h
+    have ih := declL_wf kids hk
     cases isSeq <;> simp only [declT, Bool.false_eq_true, if_false, if_true, WFT, PrintableT] <;>
-      exact ⟨⟨hq.1, ih.1, hnd⟩, ih.2⟩
-  | .grid kw kwA kwM name gs arr maps, h, hq => by
+      exact ⟨⟨hn.quoted, ih.1, hnd⟩, ih.2⟩
+  | .grid kw kwA kwM name gs arr maps, h => by
     simp only [FWFT] at h
-    simp only [FQuotedT] at hq
     simp only [declT, WFT, PrintableT]
-    refine ⟨⟨hq.1, ?_, ?_⟩, by simp, ?_⟩
+    refine ⟨⟨h.hname.quoted, ?_, ?_⟩, by simp, ?_⟩
     · intro b hb
       simp only [List.mem_cons, List.mem_map] at hb
       rcases hb with rfl | ⟨m, hm, rfl⟩
-      · exact declBase_ok arr h.harr hq.2.1
-      · exact declBase_ok m (h.hmaps m hm) (hq.2.2 m hm)
+      · exact declBase_ok arr h.harr
+      · exact declBase_ok m (h.hmaps m hm)
     · have := h.hnodup
       simpa [declBase, List.map_map, Function.comp_def] using this
     · intro b hb
@@ -167,18 +147,17 @@ theorem declT_wf : (t : FTmpl) → FWFT t → FQuotedT t → WFT (declT t) ∧ P
       rcases hb with rfl | ⟨m, hm, rfl⟩
       · exact declBase_known arr h.harr
       · exact declBase_known m (h.hmaps m hm)
-theorem declL_wf : (ts : List FTmpl) → FWFL ts → FQuotedL ts → WFL (declL ts) ∧ PrintableL (declL ts)
-  | [], _, _ => by simp [declL, WFL, PrintableL]
-  | t :: ts, h, hq => by
+theorem declL_wf : (ts : List FTmpl) → FWFL ts → WFL (declL ts) ∧ PrintableL (declL ts)
+  | [], _ => by simp [declL, WFL, PrintableL]
+  | t :: ts, h => by
     simp only [FWFL] at h
-    simp only [FQuotedL] at hq
-    have h1 := declT_wf t h.1 hq.1
-    have h2 := declL_wf ts h.2 hq.2
+    have h1 := declT_wf t h.1
+    have h2 := declL_wf ts h.2
     simp only [declL, WFL, PrintableL]
     exact ⟨⟨h1.1, h2.1⟩, h1.2, h2.2⟩
 end
 
-theorem declDs_wf (d : FDataset) (h : FWFds d) (hq : FQuotedDs d) : WFds (declDs d) ∧ PrintableL (declDs d).kids :=
-  ⟨⟨hq.1, (declL_wf d.kids h.hkids hq.2).1, h.hnodup⟩, (declL_wf d.kids h.hkids hq.2).2⟩
+theorem declDs_wf (d : FDataset) (h : FWFds d) : WFds (declDs d) ∧ PrintableL (declDs d).kids :=
+  ⟨⟨h.hname.quoted, (declL_wf d.kids h.hkids).1, h.hnodup⟩, (declL_wf d.kids h.hkids).2⟩
 
 end Pydap.Dds
